@@ -57,7 +57,9 @@ func (mf *memorySegmentFile) close() (err error) {
 }
 
 func (mf *memorySegmentFile) get() (io.Reader, int, error) {
-	data := mf.file.Bytes()
+	// 返回副本：片段滚动后缓冲区会回到池中被下一个片段重写，
+	// 不能让仍在读取（慢速客户端）的一方看到被改写的数据
+	data := append([]byte(nil), mf.file.Bytes()...)
 	return bytes.NewReader(data), len(data), nil
 }
 
